@@ -406,6 +406,49 @@ impl<'a> Engine<'a> {
         }
     }
 
+    /// C05, model-free: runs after EVERY step, also when another oracle has already fired
+    pub fn wellformed<F: Fam, const N: usize>(&mut self, s: &Sut<F, N>, whr: &str) {
+        let r = fault::catch(|| {
+            let m = s.fr.get();
+            let mut problems: Vec<(&'static str, String)> = Vec::new();
+            let len = m.len();
+            if m.is_empty() != (len == 0) {
+                problems.push(("is_empty", format!("is_empty() = {} with len() = {}", m.is_empty(), len)));
+            }
+            if len > m.capacity() || m.capacity() != N {
+                problems.push(("len>capacity", format!("len() = {}, capacity() = {}, N = {}", len, m.capacity(), N)));
+            }
+            let mut seen: Vec<u32> = Vec::new();
+            let mut count = 0usize;
+            for (k, v) in m.iter() {
+                count += 1;
+                if count > N + 4 {
+                    break;
+                }
+                if !(k.chk("iter().key") & v.chk("iter().value")) {
+                    continue;
+                }
+                if seen.contains(&k.class()) {
+                    problems.push(("duplicate-key", format!("iteration yields two keys of class {}", k.class())));
+                }
+                seen.push(k.class());
+            }
+            if count != len {
+                problems.push(("len-vs-iteration", format!("len() = {} but iter() yields {} entries", len, count)));
+            }
+            problems
+        });
+        match r {
+            Caught::Ok(p) => {
+                for (what, msg) in p {
+                    self.h.viol("C05", what, format!("{}: {}", whr, msg));
+                }
+            }
+            Caught::Panic(msg) => self.h.viol("C05", "observation-panics", format!("{}: len()/iter() panicked: {}", whr, msg)),
+            Caught::Injected(..) => {}
+        }
+    }
+
     // -----------------------------------------------------------------------------------------
     // full observation sweep
 
@@ -2010,7 +2053,10 @@ impl<'a> Engine<'a> {
         // sweep EVERY live container after every step: cross-talk between copies is visible
         let mut total = 0;
         for s in suts.iter_mut() {
-            if !self.h.failed {
+            if self.h.failed {
+                // another oracle has fired in this step: the model-free invariants are still evaluated
+                self.wellformed(s, "after a step in which another oracle fired");
+            } else {
                 self.sweep(s);
             }
             total += s.model.len();
@@ -2023,12 +2069,54 @@ impl<'a> Engine<'a> {
         self.h.live_base = F::live_objects().unwrap_or(0);
         let mut suts: Vec<Sut<F, N>> = vec![Sut::new()];
         self.sweep(&mut suts[0]);
+        if N > 32 {
+            // large capacities: start from a nearly full map (a random history alone rarely climbs beyond
+            // a few dozen entries), so that slots beyond the 32nd / 64th are in play
+            let target = N - self.rng.usize_below(9).min(N);
+            let mut classes: Vec<u32> = (1..=self.universe).collect();
+            self.rng.shuffle(&mut classes);
+            ledger::set_ctx(self.h.hist, 0, "prefill");
+            for c in classes.into_iter().take(target) {
+                let (tag, payload) = (self.h.tag(), self.h.payload());
+                let (k, v) = (F::K::mk(c, tag), F::V::mk(payload));
+                let (kid, vid) = (k.id(), v.id());
+                suts[0].fr.get_mut().insert(k, v);
+                suts[0].model.push(Ent { class: c, tag, kid, vid, payload });
+            }
+            self.h.ops.push(format!("prefill with {} entries", target));
+            self.sweep(&mut suts[0]);
+        }
         // capacities beyond 32 / 64 need histories long enough to fill them
         let steps = if N > 32 { self.rng.length(3 * N, (5 * N).max(max_steps)) } else { self.rng.length(8, max_steps) };
+        let mut escaped = false;
         for i in 0..steps {
-            self.one_op(&mut suts, i);
-            if self.h.failed || ledger::viol_total() > 0 {
+            // safety net: a panic that escapes an operation the model expects to return (the individual
+            // operations catch the panics the model predicts)
+            match fault::catch(|| self.one_op(&mut suts, i)) {
+                Caught::Ok(()) => {}
+                Caught::Panic(msg) => {
+                    let (_, _, op) = ledger::ctx();
+                    let text = format!("`{}` panicked although the reference model says the call returns: {}", op, msg);
+                    self.h.viol("C01", "unexpected-panic", text.clone());
+                    if self.cx.prop != "C01" {
+                        let p = self.cx.prop.clone();
+                        self.h.viol(&p, "unexpected-panic", text);
+                    }
+                    escaped = true;
+                }
+                Caught::Injected(..) => {
+                    self.h.viol("C01", "harness", "an injected fault escaped its operation".into());
+                    escaped = true;
+                }
+            }
+            if escaped || self.h.failed || ledger::viol_total() > 0 {
                 break;
+            }
+        }
+        if escaped {
+            // the containers may be half-modified: do not touch them again
+            for mut s in suts.drain(..) {
+                s.fr.forget();
             }
         }
         let ops = self.h.ops.clone();
